@@ -25,6 +25,9 @@ RULES = {
     "C18.R3": lambda ctx: detrules.embedded(ctx, "C18.R3"),
     "C18.R4": lambda ctx: detrules.detection(ctx, "C18.R4"),
     "C18.R5": r5,
+    "C18.R6": lambda ctx: __import__("rules.decoderrules", fromlist=["x"]).handover(ctx, "C18.R6"),
+    "C18.R7": lambda ctx: __import__("rules.encrules", fromlist=["x"]).optional_keys(ctx, "C18.R7"),
+    "C18.R7b": lambda ctx: __import__("rules.encrules", fromlist=["x"]).serde_symmetry(ctx, "C18.R7b"),
 }
 
 
